@@ -220,7 +220,7 @@ func ParseTemplate(str string) ([]string, []string, *ParsingError) {
 			vars = append(vars, var_)
 
 		default:
-			currentStr += string(b)
+			currentStr += string([]byte{b})
 		}
 	}
 
